@@ -149,6 +149,9 @@ func xr(r *core.Rand, o Opts) *rtcp.ExtendedReport {
 	if r.Chance(1, 6) {
 		PrefillXRHeaders(r, x)
 	}
+	if len(x.Reports) >= 1 && len(x.Reports) < 8 && r.Chance(1, 10) {
+		x.Reports = append(x.Reports, x.Reports[r.Intn(len(x.Reports))]) // one block (one pointer) twice
+	}
 	return x
 }
 
